@@ -54,7 +54,8 @@ STUB = ['event loop + clock', 'TCP', 'executor', 'OS randomness',
 PROBES = ['mode_agent', 'agent_client_admitted', 'mode_bytes', 'mode_keyed', 'role_server', 'role_client',
           'extreme_pktsize', 'extreme_window', 'conn_ended_with_error',
           'conn_survived', 'preauth_hostile', 'postauth_hostile',
-          'version_line_attack', 'banner_attack', 'binary_garbage']
+          'version_line_attack', 'banner_attack', 'binary_garbage',
+          'legal_request_burst']
 
 EXTREMES = [0, 1, 2, 0x7fffffff, 0x80000000, 0xffffffff]
 
@@ -289,6 +290,26 @@ def gen_plan(rng):
                                          'max'])})
 
     plan['msgs'] = msgs
+
+    if role == 'server' and rng.chance(12):
+        # a burst of channel requests that are all legal, sent back to back
+        # on the open session and followed by the channel's close: requests
+        # the server answers asynchronously (agent and X11 forwarding) with
+        # others queued behind them, and the channel gone before they are
+        # through
+        plan['auth_first'] = True
+        plan['open'] = {'window': 1 << 20, 'maxpkt': 32768}
+        plan['msgs'] = []
+        burst = [rng.choice(['agent', 'x11'])]
+
+        for _ in range(rng.between(1, 4)):
+            burst.append(rng.choice(['window-change', 'signal', 'break',
+                                     'env', 'pty-req', 'agent', 'x11',
+                                     'keepalive']))
+
+        burst.append(rng.choice(['close', 'close', 'eof', 'none']))
+        plan['legal_burst'] = burst
+
     return plan
 
 
@@ -331,6 +352,18 @@ def valid_plan(plan):
         for m in plan['msgs']:
             if m['shape'] not in ('asis', 'truncate', 'extend', 'rawtype') \
                     or m['chan'] not in ('valid', 'unknown', 'max'):
+                return False
+
+        if 'legal_burst' in plan:
+            b = plan['legal_burst']
+
+            if plan['role'] != 'server' or plan['msgs'] or \
+                    not plan['auth_first'] or len(b) < 2 or \
+                    b[-1] not in ('close', 'eof', 'none') or \
+                    any(x not in ('agent', 'x11', 'window-change', 'signal',
+                                  'break', 'env', 'pty-req', 'keepalive')
+                        for x in b[:-1]) or \
+                    plan['open'] != {'window': 1 << 20, 'maxpkt': 32768}:
                 return False
 
         return plan['cmp'] in ('none', 'zlib', 'zlib@openssh.com') and \
@@ -594,6 +627,37 @@ def run_plan(plan, sched_seed=None, sched_replay=None):
                     if p[0] == 98:
                         peer.send(bytes([99]) + u32(chan_them))
                         break
+
+        if plan.get('legal_burst') and opened and sender == 'client':
+            sim.probes['legal_request_burst'] += 1
+            reqs = {
+                'agent': string(b'auth-agent-req@openssh.com') +
+                boolean(False),
+                'x11': string(b'x11-req') + boolean(False) + boolean(False) +
+                string(b'MIT-MAGIC-COOKIE-1') + string(b'00' * 16) + u32(0),
+                'window-change': string(b'window-change') + boolean(False) +
+                u32(80) + u32(24) + u32(0) + u32(0),
+                'signal': string(b'signal') + boolean(False) +
+                string(b'INT'),
+                'break': string(b'break') + boolean(True) + u32(100),
+                'env': string(b'env') + boolean(True) + string(b'A') +
+                string(b'B'),
+                'pty-req': string(b'pty-req') + boolean(True) +
+                string(b'xterm') + u32(80) + u32(24) + u32(0) + u32(0) +
+                string(b'\x00'),
+                'keepalive': string(b'keepalive@openssh.com') +
+                boolean(True),
+            }
+
+            for name in plan['legal_burst']:
+                if name == 'close':
+                    peer.send(bytes([97]) + u32(chan_them))
+                elif name == 'eof':
+                    peer.send(bytes([96]) + u32(chan_them))
+                elif name != 'none':
+                    peer.send(bytes([98]) + u32(chan_them) + reqs[name])
+
+                res['delivered'] += 20
 
         tl = templates(sender, chan_them, chan_ours)
 
@@ -859,6 +923,15 @@ def run_plan(plan, sched_seed=None, sched_replay=None):
             400 * (plan.get('app_write', 0) + EchoSess.echoed[0]):
         world.violation('amplification', 'endpoint wrote %d bytes for %d '
                         'hostile input bytes' % (out_bytes, hostile_in))
+
+    if plan.get('legal_burst') and world.internal_errors:
+        # every message of this dialogue was legal: an exception inside the
+        # library ended a connection that had done nothing wrong
+        world.violation('internal-error', 'a burst of legal channel '
+                        'requests %r ended the connection with an internal '
+                        'error: %s' % (plan['legal_burst'],
+                                       world.internal_errors[0]),
+                        sig=world.internal_errors[0].split('(')[0])
 
     for msg, exc in sim.loop_errors:
         if 'never retrieved' in msg:
